@@ -122,6 +122,8 @@ pub struct State {
     pub fail_by_suffix_partial: u8,
     /// `partial` of the fault that made the last gated call fail
     pub last_injected_partial: u8,
+    /// table files created after an injected fault has fired
+    pub table_creates_after_fault: u64,
     /// if set: at every removal, the value of this clock, the path and the image right after it
     pub removal_clock: Option<&'static std::sync::atomic::AtomicU64>,
     pub removal_snaps: Vec<(u64, String, Image)>,
@@ -658,6 +660,9 @@ impl FileSystem for VerifFs {
         self.maybe_switch();
         let mut st = lock(&self.st);
         st.gate(class::CREATE, path)?;
+        if st.faults_fired > 0 && path.extension().map(|e| e == "rdb").unwrap_or(false) {
+            st.table_creates_after_fault += 1;
+        }
         if !st.parent_exists(path) {
             return Err(io::Error::new(io::ErrorKind::NotFound, "parent directory missing"));
         }
